@@ -684,6 +684,42 @@ func cmdCheckOracle(args []string) {
 			}
 		}
 	}
+	// failures raised by different cleanup functions are different failure sites: minimization must not move from
+	// the one that was found to another one
+	if *only < 0 || *only == 900005 {
+		gx := rapid.IntRange(0, 100)
+		first, last := "", ""
+		prop := func(t *rapid.T) {
+			x := gx.Draw(t, "x")
+			site := ""
+			switch {
+			case x > 50:
+				site = "A"
+				t.Cleanup(func() { cleanupSiteA() })
+			case x > 10:
+				site = "B"
+				t.Cleanup(func() { cleanupSiteB() })
+			}
+			if site != "" && first == "" {
+				first = site
+			}
+			last = site
+		}
+		for k := uint64(0); k < 4; k++ {
+			first, last = "", ""
+			old := setFlags(100, (*seed+k)|1, 200*time.Millisecond, true)
+			tb := &recTB{name: "T"}
+			esc := runTB(func() { rapid.Check(tb, prop) })
+			rapid.VerifSetFlags(old)
+			verdict, _, _, msg, _ := classifyTB(tb)
+			stats["cleanup_site_runs"]++
+			if esc == nil && (verdict == "failed" || verdict == "panic") && first != last {
+				fails = append(fails, oracleFailure{"C05", "the minimized failure is raised at another site than the failure found", "IntRange(0,100): x > 50 registers a cleanup that panics at site A, 10 < x <= 50 one that panics at site B", 100, (*seed + k) | 1, "200ms",
+					fmt.Sprintf("found at cleanup %s, reported at cleanup %s (verdict %s, msg %q)", first, last, verdict, msg), *seed, 900005, *prof})
+				break
+			}
+		}
+	}
 	// many large passing test cases in one run: every one of them is valid on its own, whatever ran before it
 	if *only < 0 || *only == 900003 {
 		gbig := rapid.SliceOfN(rapid.Uint16(), 50000, 60000)
@@ -930,3 +966,9 @@ func rejectedAttemptEffects(events []string) string {
 	}
 	return ""
 }
+
+//go:noinline
+func cleanupSiteA() { panic("cleanup failure") }
+
+//go:noinline
+func cleanupSiteB() { panic("cleanup failure") }
